@@ -157,4 +157,192 @@ theorem wake_worker_thread_refines (fuel : Nat) (env : Env) (inp : List Val) (W 
   obtain ⟨out, h, h1, h2⟩ := src_wake_worker_thread fuel env inp W n hc hf hr
   exact ⟨out, h, fun hn => (h1 hn).refines _ _ _ (fun s l s' hs => by simp [runA, hs]), h2⟩
 
+/-! ## the local automata are the thread-local projections of the real L2 `step` functions
+
+(statements re-exported; `Hs` = `Handshake/Tso.lean`, `Qs` = `Handshake/QsbrTso.lean`, `Cr` = `CallRcu/Wake.lean`,
+`Df` = `Defer/ConcWake.lean`; the waker of `Hs` is `Read.hstep` with `Read.projH_step / projH_enabled / projH_frame`,
+re-exported by `Props/SrcRead.lean`) -/
+
+theorem hs_waiter_proj_step (c : Handshake.Cfg) (s s' : Handshake.State) (l : Hs.WLabel)
+    (st : Handshake.step c s l.toL2 = some s') (ho : Hs.ObsW s l) : Hs.lstep s.wpc l = some s'.wpc :=
+  Hs.projW_step c s s' l st ho
+theorem hs_waiter_proj_enabled (c : Handshake.Cfg) (s : Handshake.State) (l : Hs.WLabel) (pc' : Handshake.WPc)
+    (hl : Hs.lstep s.wpc l = some pc') (hg : Hs.GuardW c s l) :
+    ∃ s', Handshake.step c s l.toL2 = some s' ∧ s'.wpc = pc' ∧ Hs.ObsW s l := Hs.projW_enabled c s l pc' hl hg
+/-- environment labels other than a waker's FUTEX_WAKE (`k3 j`) leave the waiter's pc unchanged … -/
+theorem hs_waiter_proj_frame (c : Handshake.Cfg) (s s' : Handshake.State) (l : Handshake.Label)
+    (st : Handshake.step c s l = some s') (ho : Hs.ownedW l = false) (hw : Hs.isWake l = false) : s'.wpc = s.wpc :=
+  Hs.projW_frame c s s' l st ho hw
+/-- … and `k3 j` acts on it exactly like the local label `woken` when the waiter is asleep, not at all otherwise -/
+theorem hs_waiter_env_wake (c : Handshake.Cfg) (s s' : Handshake.State) (j : Nat)
+    (st : Handshake.step c s (.k3 j) = some s') :
+    s'.wpc = Hs.wakeEffect s.wpc ∧ (s.wpc = .wsleep → Hs.lstep s.wpc .woken = some s'.wpc) :=
+  Hs.projW_env_wake c s s' j st
+
+theorem qs_waiter_proj_step (c : QsbrHs.Cfg) (s s' : QsbrHs.State) (l : Qs.WLabel)
+    (st : QsbrHs.step c s l.toL2 = some s') (ho : Qs.ObsW s l) : Qs.lstep s.wpc l = some s'.wpc :=
+  Qs.projW_step c s s' l st ho
+theorem qs_waiter_proj_enabled (c : QsbrHs.Cfg) (s : QsbrHs.State) (l : Qs.WLabel) (pc' : QsbrHs.WPc)
+    (hl : Qs.lstep s.wpc l = some pc') (hg : Qs.GuardW c s l) :
+    ∃ s', QsbrHs.step c s l.toL2 = some s' ∧ s'.wpc = pc' ∧ Qs.ObsW s l := Qs.projW_enabled c s l pc' hl hg
+theorem qs_waiter_proj_frame (c : QsbrHs.Cfg) (s s' : QsbrHs.State) (l : QsbrHs.Label)
+    (st : QsbrHs.step c s l = some s') (ho : Qs.ownedW l = false) (hw : Qs.isWake l = false) : s'.wpc = s.wpc :=
+  Qs.projW_frame c s s' l st ho hw
+theorem qs_waiter_env_wake (c : QsbrHs.Cfg) (s s' : QsbrHs.State) (j : Nat) (st : QsbrHs.step c s (.k5 j) = some s') :
+    s'.wpc = Qs.wakeEffect s.wpc ∧ (s.wpc = .wsleep → Qs.lstep s.wpc .woken = some s'.wpc) :=
+  Qs.projW_env_wake c s s' j st
+theorem qs_waker_proj_step (c : QsbrHs.Cfg) (s s' : QsbrHs.State) (i : Nat) (l : Qs.KLabel)
+    (st : QsbrHs.step c s (l.toL2 i) = some s') (ho : Qs.ObsK s i l) :
+    Qs.kstep (Qs.projK s i) l = some (Qs.projK s' i) := Qs.projK_step c s s' i l st ho
+theorem qs_waker_proj_enabled (c : QsbrHs.Cfg) (s : QsbrHs.State) (i : Nat) (l : Qs.KLabel) (ks' : Qs.KState)
+    (hl : Qs.kstep (Qs.projK s i) l = some ks') (hi : i < c.n) (hg : Qs.GuardK s i l) :
+    ∃ s', QsbrHs.step c s (l.toL2 i) = some s' ∧ Qs.projK s' i = ks' ∧ Qs.ObsK s i l :=
+  Qs.projK_enabled c s i l ks' hl hi hg
+theorem qs_waker_proj_frame (c : QsbrHs.Cfg) (s s' : QsbrHs.State) (i : Nat) (l : QsbrHs.Label)
+    (st : QsbrHs.step c s l = some s') (ho : Qs.ownerK l ≠ some i) : Qs.projK s' i = Qs.projK s i :=
+  Qs.projK_frame c s s' i l st ho
+
+theorem cr_waiter_proj_step (c : CallRcuWake.Cfg) (s s' : CallRcuWake.State) (l : Cr.WLabel)
+    (st : CallRcuWake.step c s l.toL2 = some s') (ho : Cr.ObsW s l) : Cr.lstep c s.hpc l = some s'.hpc :=
+  Cr.projW_step c s s' l st ho
+theorem cr_waiter_proj_enabled (c : CallRcuWake.Cfg) (s : CallRcuWake.State) (l : Cr.WLabel) (pc' : CallRcuWake.HPc)
+    (hl : Cr.lstep c s.hpc l = some pc') (hg : Cr.GuardW s l) :
+    ∃ s', CallRcuWake.step c s l.toL2 = some s' ∧ s'.hpc = pc' ∧ Cr.ObsW s l := Cr.projW_enabled c s l pc' hl hg
+theorem cr_waiter_proj_frame (c : CallRcuWake.Cfg) (s s' : CallRcuWake.State) (l : CallRcuWake.Label)
+    (st : CallRcuWake.step c s l = some s') (ho : Cr.ownedW l = false) (hw : Cr.isWake l = false) : s'.hpc = s.hpc :=
+  Cr.projW_frame c s s' l st ho hw
+theorem cr_waiter_env_wake (c : CallRcuWake.Cfg) (s s' : CallRcuWake.State) (j : Nat)
+    (st : CallRcuWake.step c s (.kWake j) = some s') :
+    s'.hpc = Cr.wakeEffect s.hpc ∧ (s.hpc = .asleep → Cr.lstep c s.hpc .woken = some s'.hpc) :=
+  Cr.projW_env_wake c s s' j st
+theorem cr_waker_proj_step (c : CallRcuWake.Cfg) (s s' : CallRcuWake.State) (i : Nat) (l : Cr.KLabel)
+    (st : CallRcuWake.step c s (l.toL2 i) = some s') (ho : Cr.ObsK s i l) :
+    Cr.kstep (Cr.projK s i) l = some (Cr.projK s' i) := Cr.projK_step c s s' i l st ho
+theorem cr_waker_proj_enabled (c : CallRcuWake.Cfg) (s : CallRcuWake.State) (i : Nat) (l : Cr.KLabel) (ks' : Cr.KState)
+    (hl : Cr.kstep (Cr.projK s i) l = some ks') (hi : i < c.n) (hg : Cr.GuardK s i l) :
+    ∃ s', CallRcuWake.step c s (l.toL2 i) = some s' ∧ Cr.projK s' i = ks' ∧ Cr.ObsK s i l :=
+  Cr.projK_enabled c s i l ks' hl hi hg
+theorem cr_waker_proj_frame (c : CallRcuWake.Cfg) (s s' : CallRcuWake.State) (i : Nat) (l : CallRcuWake.Label)
+    (st : CallRcuWake.step c s l = some s') (ho : Cr.ownerK l ≠ some i) : Cr.projK s' i = Cr.projK s i :=
+  Cr.projK_frame c s s' i l st ho
+
+theorem df_waiter_proj_step (c : DeferWake.Cfg) (s s' : DeferWake.State) (l : Df.WLabel) (hq : ∀ i, l ≠ .dScanQ i)
+    (st : DeferWake.step c s l.toL2 = some s') (ho : Df.ObsW s l) : Df.lstep c (Df.projW s) l = some (Df.projW s') :=
+  Df.projW_step c s s' l hq st ho
+theorem df_waiter_proj_enabled (c : DeferWake.Cfg) (s : DeferWake.State) (l : Df.WLabel) (ws' : Df.WState)
+    (hl : Df.lstep c (Df.projW s) l = some ws') (hg : Df.GuardW c s l) :
+    ∃ s', DeferWake.step c s l.toL2 = some s' ∧ Df.projW s' = ws' ∧ Df.ObsW s l := Df.projW_enabled c s l ws' hl hg
+theorem df_waiter_proj_frame (c : DeferWake.Cfg) (s s' : DeferWake.State) (l : DeferWake.Label)
+    (st : DeferWake.step c s l = some s') (ho : Df.ownedW l = false) (hw : Df.isWake l = false) :
+    Df.projW s' = Df.projW s := Df.projW_frame c s s' l st ho hw
+theorem df_waiter_env_wake (c : DeferWake.Cfg) (s s' : DeferWake.State) (j : Nat)
+    (st : DeferWake.step c s (.k3 j) = some s') :
+    Df.projW s' = Df.wakeEffect (Df.projW s) ∧
+      (s.dpc = .dsleep → Df.lstep c (Df.projW s) .woken = some (Df.projW s')) := Df.projW_env_wake c s s' j st
+theorem df_waker_proj_step (c : DeferWake.Cfg) (s s' : DeferWake.State) (i : Nat) (l : Df.KLabel)
+    (st : DeferWake.step c s (l.toL2 i) = some s') (ho : Df.ObsK s l) :
+    Df.kstep (Df.projK s i) l = some (Df.projK s' i) := Df.projK_step c s s' i l st ho
+theorem df_waker_proj_enabled (c : DeferWake.Cfg) (s : DeferWake.State) (i : Nat) (l : Df.KLabel) (ks' : Df.KState)
+    (hl : Df.kstep (Df.projK s i) l = some ks') (hg : Df.GuardK c s i l) :
+    ∃ s', DeferWake.step c s (l.toL2 i) = some s' ∧ Df.projK s' i = ks' ∧ Df.ObsK s l :=
+  Df.projK_enabled c s i l ks' hl hg
+theorem df_waker_proj_frame (c : DeferWake.Cfg) (s s' : DeferWake.State) (i : Nat) (l : DeferWake.Label)
+    (st : DeferWake.step c s l = some s') (ho : Df.ownerK l ≠ some i) : Df.projK s' i = Df.projK s i :=
+  Df.projK_frame c s s' i l st ho
+
+/-! ## non-vacuity: concrete runs (oracle, events, generic labels, L2-local labels, final pcs) -/
+
+/-- mb `wait_gp()`: unlock; load -1; FUTEX_WAIT returns 0 (woken); load 0; lock: 6 events, the call completes -/
+def mbRun : List Val := [.int 0, .int (-1), .int 0, .int 0, .int 0]
+example : (exec 2 Gen.Src.«mb.wait_gp» Env.empty mbRun).toOption.map (fun o => (o.events, o.ctl)) =
+    some ([.fence .mb, .ext "mutex_unlock" [.ptr (.glob "rcu_registry_lock")] (.int 0), .ld gpF (.int (-1)) 0,
+           .ext "futex_async" (waitArgs gpF (-1)) (.int 0), .ld gpF (.int 0) 0,
+           .ext "mutex_lock" [.ptr (.glob "rcu_registry_lock")] (.int 0)], .normal) := by decide
+example : (exec 2 Gen.Src.«mb.wait_gp» Env.empty mbRun).toOption.map
+      (fun o => (labelsOf (absEvW gpF (-1) "futex_async") o.events).map (fun l => (l, l.flatMap Hs.gw2l))) =
+    some (some ([.ldArmed, .sleep, .woken, .ldOther 0], [.w2Sleep, .woken, .w2RetLd 0])) := by decide
+example : runA Hs.lstep .w2 [.w2Sleep, .woken, .w2RetLd 0] = some .w0 := by decide
+example := mb_wait_gp_refines 2 Env.empty mbRun
+/-- the loop budget runs out (fuel 1, the futex stays -1): generic pc back at `chk` -/
+example : (exec 1 Gen.Src.«mb.wait_gp» Env.empty [.int 0, .int (-1), .int 0, .int (-1)]).toOption.map (·.ctl) =
+    some .fuel := by decide
+
+/-- memb `wait_gp()` with `sys_membarrier`: the `membarrier` system call, then EAGAIN from the kernel -/
+def envMemb : Env :=
+  { vars := fun _ => none,
+    priv := fun l => if l = .glob "urcu_memb_has_sys_membarrier" then some (.int 1)
+      else if l = .glob "urcu_memb_has_sys_membarrier_private_expedited" then some (.int 1) else none }
+example : (exec 2 Gen.Src.«memb.wait_gp» envMemb [.int 0, .int 0, .int (-1), .int (-1), .int 11, .int 0]).toOption.map
+      (fun o => (o.events, o.ctl)) =
+    some ([.ext "membarrier" [.int 8, .int 0] (.int 0), .ext "mutex_unlock" [.ptr (.glob "rcu_registry_lock")] (.int 0),
+           .ld gpF (.int (-1)) 0, .ext "futex_async" (waitArgs gpF (-1)) (.int (-1)), .ext "errno" [] (.int 11),
+           .ext "mutex_lock" [.ptr (.glob "rcu_registry_lock")] (.int 0)], .normal) := by decide
+example := memb_wait_gp_refines 2 envMemb [.int 0, .int 0, .int (-1), .int (-1), .int 11, .int 0] 1 1 rfl rfl
+
+/-- qsbr `wait_gp()`: EINTR, then EAGAIN: 7 events, returns -/
+def qsRun : List Val := [.int (-1), .int (-1), .int 4, .int (-1), .int (-1), .int 11]
+example : (exec 3 Gen.Src.«qsbr.wait_gp» Env.empty qsRun).toOption.map
+      (fun o => (o.events.length, o.ctl, labelsOf (absEvW qsF (-1) "futex_noasync") o.events)) =
+    some (7, .ret none, some [.ldArmed, .intr, .ldArmed, .eagain]) := by decide
+example : runA Qs.lstep .w2 ([GWLabel.ldArmed, .intr, .ldArmed, .eagain].flatMap Qs.gw2l) = some .w0 := by decide
+example := qsbr_wait_gp_refines 3 Env.empty qsRun
+/-- a blocked prefix: the oracle ends inside FUTEX_WAIT -/
+example : (exec 3 Gen.Src.«qsbr.wait_gp» Env.empty [.int (-1)]).toOption.map (fun o => (o.events.length, o.ctl)) =
+    some (2, .blocked) := by decide
+/-- an unexpected `errno` (the source would call `urcu_die`) violates the contract `evOk` -/
+example : (exec 3 Gen.Src.«qsbr.wait_gp» Env.empty [.int (-1), .int (-1), .int 22]).toOption.map
+    (fun o => o.events.all (evOk qsF)) = some false := by decide
+
+/-- wakers: updater asleep (futex = -1) -/
+def envGp : Env := { vars := fun x => if x = "gp" then some (.ptr (.glob "urcu_memb_gp")) else none, priv := fun _ => none }
+example : (exec 0 Gen.Src.«urcu_common_wake_up_gp» envGp [.int (-1), .int 1]).toOption.map
+      (fun o => (o.events, labelsOf (absEvK (.field (.glob "urcu_memb_gp") "futex") "futex_async") o.events)) =
+    some ([.ld (.field (.glob "urcu_memb_gp") "futex") (.int (-1)) 0, .st (.field (.glob "urcu_memb_gp") "futex") (.int 0) 0,
+           .ext "futex_async" (wakeArgs (.field (.glob "urcu_memb_gp") "futex")) (.int 1)],
+          some [.k1 (-1), .k2Wake, .k3]) := by decide
+example := urcu_common_wake_up_gp_refines true 0 envGp [.int (-1), .int 1] (.glob "urcu_memb_gp") rfl
+example : (exec 0 Gen.Src.«urcu_qsbr_wake_up_gp» Env.empty [.int 1, .int (-1), .int 1]).toOption.map
+      (fun o => (o.events.length, labelsOf absEvQK o.events)) =
+    some (6, some [.k1 true, .k2, .kf, .k3 (-1), .k4Wake, .k5]) := by decide
+example : runA Qs.kstep { kpc := .k1, r := 0 } [.k1 true, .k2, .kf, .k3 (-1), .k4Wake, .k5] =
+    some { kpc := .k9, r := -1 } := by decide
+example := urcu_qsbr_wake_up_gp_refines 0 Env.empty [.int 1, .int (-1), .int 1]
+
+/-- call_rcu: helper waits (sleeps, woken, sees 0); `_call_rcu` wakes it -/
+def envCrdp : Env := { vars := fun x => if x = "crdp" then some (.ptr (.obj 3)) else none, priv := fun _ => none }
+example : (exec 2 Gen.Src.«call_rcu_wait» envCrdp [.int (-1), .int 0, .int 0]).toOption.map
+      (fun o => (o.events.length, o.ctl, labelsOf (absEvW (.field (.obj 3) "futex") (-1) "futex_async") o.events)) =
+    some (4, .normal, some [.ldArmed, .sleep, .woken, .ldOther 0]) := by decide
+example : runA (Cr.lstep {n := 1}) .waitLd ([GWLabel.ldArmed, .sleep, .woken, .ldOther 0].flatMap Cr.gw2l) = some .dec := by
+  decide
+example := call_rcu_wait_refines {n := 1} 2 envCrdp [.int (-1), .int 0, .int 0] (.obj 3) rfl
+example : (exec 0 Gen.Src.«wake_call_rcu_thread» envCrdp [.int 0, .int (-1), .int 1]).toOption.map
+      (fun o => (o.events.length, o.ctl, labelsOf (absEvK (.field (.obj 3) "futex") "futex_async") o.events)) =
+    some (5, .normal, some [.k1 (-1), .k2Wake, .k3]) := by decide
+example := wake_call_rcu_thread_refines 0 envCrdp [.int 0, .int (-1), .int 1] (.obj 3) 0 rfl
+  (by intro f rest h; cases h; rfl)
+  (by intro f rest h; cases h; intro v r rest h; cases h; exact ⟨1, by decide, rfl⟩)
+example := call_rcu_wake_up_refines 0 envCrdp [.int (-1), .int 1] (.obj 3) rfl
+  (by intro v r rest h; cases h; exact ⟨1, by decide, rfl⟩)
+
+/-- defer / work queue wakers and the work queue waiter -/
+example : (exec 0 Gen.Src.«wake_up_defer» Env.empty [.int (-1), .int 1]).toOption.map
+      (fun o => (o.events.length, o.ctl, labelsOf (absEvK dfF "futex_noasync") o.events)) =
+    some (3, .normal, some [.k1 (-1), .k2Wake, .k3]) := by decide
+example := wake_up_defer_refines 0 Env.empty [.int (-1), .int 1] (by intro v r rest h; cases h; exact ⟨1, by decide, rfl⟩)
+def envFx : Env := { vars := fun x => if x = "futex" then some (.ptr (.field (.obj 5) "futex")) else none, priv := fun _ => none }
+example : (exec 2 Gen.Src.«futex_wait» envFx [.int (-1), .int (-1), .int 11]).toOption.map
+      (fun o => (o.events.length, o.ctl, labelsOf (absEvW (.field (.obj 5) "futex") (-1) "futex_async") o.events)) =
+    some (4, .ret none, some [.ldArmed, .eagain]) := by decide
+example := futex_wait_refines 2 envFx [.int (-1), .int (-1), .int 11] (.field (.obj 5) "futex") rfl
+example := futex_wake_up_refines 0 envFx [.int (-1), .int 1] (.field (.obj 5) "futex") rfl
+  (by intro v r rest h; cases h; exact ⟨1, by decide, rfl⟩)
+
+/-- the projection lemmas are not vacuous: real L2 steps of the waiter of `Handshake/Tso.lean` up to its sleep, and the
+wake-up by waker 0 -/
+example : ∃ s1 s2, Handshake.step ⟨1, false, true⟩ Handshake.init .w0 = some s1 ∧
+    Handshake.step ⟨1, false, true⟩ s1 .wbarRet = some s2 ∧ Hs.lstep s1.wpc .wbarRet = some s2.wpc := by
+  refine ⟨_, _, rfl, rfl, ?_⟩
+  exact hs_waiter_proj_step ⟨1, false, true⟩ _ _ .wbarRet rfl trivial
+
 end UrcuVerif.Props.SrcFutex
